@@ -844,9 +844,9 @@ class Exec:
         self.models.append((re.compile(pattern), fn))
 
     # -------------------------------------------------------------- run
-    def run(self, func, args=None, start='bb0', env=None, stop=(), pre=()):
+    def run(self, func, args=None, start='bb0', env=None, stop=(), pre=(), heap=None):
         st = State()
-        st.frames = {0: {}}
+        st.frames = {0: dict(heap or {})}
         st.pc = list(pre)
         st.log, st.notes = [], {}
         fid = next(self.fid_n)
